@@ -95,6 +95,19 @@ check('C03', 'delivery', 'exploration',
       'order and is not compared across plans. One known finding (new() across phrased associations) is listed in '
       'known_findings.json and reported as KNOWN-FINDING.', 'DESIGN.md §4 C03')
 
+check('C12', 'loadfault', 'fault_enumeration',
+      'deterministic simulation with fault enumeration: every single-edit fault site (truncate / token delete, duplicate, swap, '
+      'class flip / character flip / lost, duplicated, reordered statement) of a stored-text corpus, delivered through string and '
+      'file routes of a simulated disk, twin-loader atomicity oracle, metered step budget',
+      'For each fault site the damaged chunk (intact statements first, so a half-applied chunk is visible) is fed to a real loader '
+      'with history; the call must return or raise ParsingException; after a rejection the loader and a twin that never saw the '
+      'chunk must build equal metamodels, again after a common suffix; building accepted text must succeed or raise '
+      'ParsingException / MetaException; metered line events must stay within a linear budget. Quick: seeded sample of the sites of '
+      'every block (~200 k sites); thorough: every single-fault site of the corpus plus seeded double faults.',
+      'Trusted: the independent tokenizer, the twin-loader construction, the canonical form (engines/sqlgen.py). Faults are '
+      'applied to characters, not raw bytes. Regex back-tracking inside C is only visible to the wall-clock backstop.',
+      'DESIGN.md §4 C12')
+
 
 def build():
     sys.path.insert(0, HERE)
@@ -144,7 +157,7 @@ def build():
 
 if __name__ == '__main__':
     # pending properties are claimed in DESIGN.md but their check is not committed yet
-    for pid in ('C01', 'C12', 'C13', 'C18'):
+    for pid in ('C01', 'C13', 'C18'):
         PENDING[pid] = 'simulation target per DESIGN.md; check under construction and not claimed until it is committed'
     doc = build()
     with open(os.path.join(HERE, 'MANIFEST.json'), 'w') as f:
